@@ -59,7 +59,7 @@ func propC15(c *Ctx, r *Report) {
 		var total uint64
 		bad := ""
 		for i, p := range pcts {
-			sc := &Scenario{Params: map[string]AVal{"height": hconst(era.h)}, Paths: map[string]AVal{"dev.DevRewardPct": {K: AConst, C: constant.MakeFloat64(p)}}, MaxDepth: 1}
+			sc := &Scenario{Params: map[string]AVal{"height": hconst(era.h)}, Paths: map[string]AVal{"node.DevReward.DevRewardPct": {K: AConst, C: constant.MakeFloat64(p)}}, MaxDepth: 1}
 			t := newSCCP(c, sc).analyse(dp, nil)
 			r.Scen++
 			calls := t.CallsTo("AddToBalance")
